@@ -195,6 +195,7 @@ namespace cow { Value run(const Value& script); }
 #include "hist_covcache.hpp"
 #include "hist_cow.hpp"
 #include "hist_neigh.hpp"
+#include "hist_copy.hpp"
 
 int main(int argc, char** argv)
 {
@@ -219,6 +220,7 @@ int main(int argc, char** argv)
     else if (mode == "covcache") obs = cc::run(sc);
     else if (mode == "cow") obs = cow::run(sc);
     else if (mode == "neighmemo") obs = nm::run(sc);
+    else if (mode == "copy") obs = cp::run(sc);
     else return 2;
     Value rec = Value::object();
     rec["idx"] = Value(is);
